@@ -324,6 +324,49 @@ def gen_ops(prop, hbin, seed, tier, extra):
 
 
 def run_impl(prop, hbin, ops, seed, tier, crashes=None):
+    """Scenario harnesses (one independent bubble per op line) are run as several processes over contiguous chunks
+    of the op list; the outputs are concatenated in op order and the `#stat` counters summed."""
+    real = [o for o in ops if not o.startswith("#")]
+    jobs = int(os.environ.get("VERIF_JOBS", "0") or 0) or max(1, min(8, (os.cpu_count() or 2) // 2))
+    if prop.harness_kind != "test" or prop.group_by_reset or jobs == 1 or len(real) < 4 * jobs:
+        return run_impl_seq(prop, hbin, ops, seed, tier, crashes)
+    import concurrent.futures
+    size = (len(real) + jobs - 1) // jobs
+    chunks = [real[i:i + size] for i in range(0, len(real), size)]
+    results = [None] * len(chunks)
+
+    def work(k):
+        cr = [] if crashes is not None else None
+        return k, run_impl_seq(prop, hbin, chunks[k], seed, tier, cr), cr
+
+    with concurrent.futures.ThreadPoolExecutor(max_workers=jobs) as ex:
+        futs = [ex.submit(work, k) for k in range(len(chunks))]
+        err = None
+        for f in futs:
+            try:
+                k, lines, cr = f.result()
+                results[k] = (lines, cr)
+            except Broken as b:
+                err = err or b
+        if err is not None:
+            raise err
+    out, stats = [], {}
+    for lines, cr in results:
+        for l in lines:
+            if l.startswith("#stat "):
+                parts = l.split()
+                try:
+                    stats[parts[1]] = stats.get(parts[1], 0) + int(parts[2])
+                    continue
+                except (IndexError, ValueError):
+                    pass
+            out.append(l)
+        if crashes is not None and cr:
+            crashes.extend(cr)
+    return out + ["#stat %s %d" % kv for kv in sorted(stats.items())]
+
+
+def run_impl_seq(prop, hbin, ops, seed, tier, crashes=None):
     """Runs the implementation on op lines; returns lines `op | impl`.
 
     A process crash (a Go panic outside the harness's recover, e.g. in a goroutine of the code under test) kills
